@@ -85,10 +85,17 @@ pub extern "C" fn ctx_set(p: *mut u8) {
 }
 #[unsafe(export_name = "[thread-yield]")]
 pub extern "C" fn th_yield() -> bool {
-    with(|h| {
+    // the host may make progress while the guest is suspended here (peers of its
+    // streams/futures, callees of its subtasks); no cancellation is delivered this way
+    let pump = with(|h| {
         h.builtin_calls += 1;
-        false
-    })
+        h.fault("thread_yield");
+        if h.cfg.faults && h.ch.pick(2) == 1 { h.wait_pump } else { None }
+    });
+    if let Some(p) = pump {
+        p();
+    }
+    false
 }
 #[unsafe(export_name = "[backpressure-inc]")]
 pub extern "C" fn bp_inc() {
